@@ -5624,6 +5624,9 @@ class CodegenCtx:
         elif isinstance(action, SetTo):
             target = action.into_storage
             value = self._generate_code_for_int_expr(action.value_expr, ctx, target)
+            if target.holds_a(OutputStorageType.INT):
+                # the value is converted to the declared width; say so, or compilers warn about constants that do not fit
+                value = f"({self._integer_containing(signed=target.int_signed, width=target.int_width)})({value})"
             result.add(f"state->c.{target.name} = {value};")
         elif isinstance(action, SetToStr):
             assert action.into_storage.holds_a(OutputStorageType.STR)
@@ -5760,7 +5763,10 @@ class CodegenCtx:
                             contents.add(f"state->c.{out_expr.name} = malloc({self._generate_buflike_length_expr(out_expr)});")
                         contents.add(self._generate_set_string(out_expr.default_value, out_expr))
                     else:
-                        contents.add(f"state->c.{out_expr.name} = {self._generate_code_for_int_expr(out_expr.default_value, IntegerExprUseContext.ASSIGN_INITIAL, out_expr)};")
+                        default_code = self._generate_code_for_int_expr(out_expr.default_value, IntegerExprUseContext.ASSIGN_INITIAL, out_expr)
+                        if out_expr.holds_a(OutputStorageType.INT):
+                            default_code = f"({self._integer_containing(signed=out_expr.int_signed, width=out_expr.int_width)})({default_code})"
+                        contents.add(f"state->c.{out_expr.name} = {default_code};")
 
             # Set starting state
             contents.add("// set starting state")
